@@ -25,3 +25,6 @@ package types
 
 // JSON decoding of the transfer memo is outside the modelled subset: its result is an uninterpreted deterministic function of the string
 //@ func GetRewardMemoFromTransferMemo pure modular trusted
+
+// JSON encoding of the reward memo is outside the modelled subset
+//@ func CreateTransferMemo pure modular trusted
